@@ -178,6 +178,9 @@ func loadDeb(archive *Ar) (*Deb, error) {
 		if err != nil {
 			return nil, err
 		}
+		if _, dup := contents[member.Name]; dup {
+			return nil, fmt.Errorf("Archive contains two members named '%s'", member.Name)
+		}
 		contents[member.Name] = member
 	}
 	member, ok := contents["debian-binary"]
@@ -206,6 +209,20 @@ func loadDeb(archive *Ar) (*Deb, error) {
 // Load a Debian 2.x series .deb - track down the control and data members.
 func loadDeb2(archive map[string]*ArEntry) (*Deb, error) {
 	ret := Deb{ArContent: archive}
+
+	/* Which member is parsed (and which one CheckDebsig verifies) must not
+	 * depend on map iteration order. */
+	for _, prefix := range []string{"control.", "data."} {
+		count := 0
+		for name := range archive {
+			if strings.HasPrefix(name, prefix) {
+				count++
+			}
+		}
+		if count > 1 {
+			return nil, fmt.Errorf("Archive contains %d '%s*' members", count, prefix)
+		}
+	}
 
 	if err := loadDeb2Control(archive, &ret); err != nil {
 		return nil, err
